@@ -22,6 +22,10 @@ pub enum Op {
         files: Vec<SrcFile>,
         #[serde(default)]
         bystanders: Vec<SrcFile>,
+        /// files elsewhere in the project directory (not under the source directory): must be
+        /// ignored, e.g. `src2/ignored.mamba` next to `src`
+        #[serde(default)]
+        outside: Vec<SrcFile>,
         /// the single file made faulty in this version, if any: its relative path and the
         /// fault line appended to it (without that line the version is the valid base)
         #[serde(default)]
@@ -63,6 +67,12 @@ pub struct Layout {
     /// give a single file (relative to the source directory) as input instead of the directory
     #[serde(default)]
     pub src_file: Option<String>,
+    /// how the input / output argument is written: "" (relative name), "abs" (absolute path),
+    /// "slash" (trailing slash), "dotdot" (`../<project>/<name>`)
+    #[serde(default)]
+    pub src_form: String,
+    #[serde(default)]
+    pub target_form: String,
 }
 
 #[derive(Clone, Debug, Serialize, Deserialize, PartialEq, Eq)]
@@ -407,9 +417,19 @@ impl HistExec {
 
     pub fn apply(&mut self, op_index: usize, op: &Op) {
         match op {
-            Op::Project { files, bystanders, faulty, note } => {
+            Op::Project { files, bystanders, outside, faulty, note } => {
                 let src = format!("{}/{}", self.proj(), src_dir_name(&self.layout));
-                let _ = std::fs::remove_dir_all(&src);
+                if src_dir_name(&self.layout) != "." {
+                    let _ = std::fs::remove_dir_all(&src);
+                    for f in outside {
+                        write_file(&self.proj(), &f.path, f.text.as_bytes());
+                    }
+                } else {
+                    // the project directory is the source directory: remove the old sources only
+                    for f in self.version.files.iter().chain(self.version.bystanders.iter()) {
+                        let _ = std::fs::remove_file(Path::new(&src).join(&f.path));
+                    }
+                }
                 std::fs::create_dir_all(&src).expect("src dir");
                 for f in files.iter().chain(bystanders.iter()) {
                     write_file(&src, &f.path, f.text.as_bytes());
@@ -440,16 +460,33 @@ impl HistExec {
     }
 
     fn step_spec(&self, hash_seed: u64, readdir_seed: u64, plan: &[PlanItem], crash_at: Option<u64>, disk_budget: Option<i64>, root: &str) -> StepSpec {
+        let form = |name: &str, form: &str| -> String {
+            match form {
+                "abs" => format!("{root}/{}/{name}", self.root_name),
+                "slash" => format!("{name}/"),
+                "dotdot" => format!("../{}/{name}", self.root_name),
+                _ => name.to_string(),
+            }
+        };
         let src_arg = match (&self.layout.src, &self.layout.src_file) {
-            (_, Some(f)) => Some(format!("{}/{}", src_dir_name(&self.layout), f)),
-            (Some(s), None) => Some(s.clone()),
+            (_, Some(f)) => {
+                let sf = if self.layout.src_form == "slash" { "" } else { self.layout.src_form.as_str() };
+                Some(form(&format!("{}/{}", src_dir_name(&self.layout), f), sf))
+            }
+            (Some(s), None) => Some(form(s, &self.layout.src_form)),
+            (None, None) if !self.layout.src_form.is_empty() => Some(form("src", &self.layout.src_form)),
             (None, None) => None,
+        };
+        let target_arg = match &self.layout.target {
+            Some(t) => Some(form(t, &self.layout.target_form)),
+            None if !self.layout.target_form.is_empty() => Some(form("target", &self.layout.target_form)),
+            None => None,
         };
         StepSpec {
             root: root.to_string(),
             dir: self.root_name.clone(),
             src: src_arg,
-            target: self.layout.target.clone(),
+            target: target_arg,
             annotate: self.annotate,
             hash_seed,
             readdir_seed,
@@ -513,6 +550,22 @@ impl HistExec {
                     }
                     if self.annotate {
                         c.arg("-a");
+                    }
+                    // flags that only concern logging must not matter
+                    if hash_seed % 3 == 0 {
+                        c.arg("-v");
+                    }
+                    if hash_seed % 4 == 1 {
+                        c.arg("-vv");
+                    }
+                    if hash_seed % 5 == 0 {
+                        c.arg("--no-color");
+                    }
+                    if hash_seed % 7 == 0 {
+                        c.arg("-l");
+                    }
+                    if hash_seed % 11 == 0 {
+                        c.arg("-d").arg("--no-module-path");
                     }
                     c.stdin(std::process::Stdio::null()).stdout(std::process::Stdio::null()).stderr(std::process::Stdio::null());
                     match c.status() {
@@ -611,7 +664,7 @@ impl HistExec {
                 } else if res.outcome == "ok" {
                     step_viol.extend(self.judge_ok(step, &before, &after, &files, &r, &out_rel));
                     let expect_path = format!("$ROOT/{out_rel}");
-                    if res.ok_path != expect_path {
+                    if lexical_norm(&res.ok_path) != expect_path {
                         step_viol.push(Viol::new("ok_but_tree_differs_extra", step, format!("returned output directory {} instead of {}", res.ok_path, expect_path)));
                     }
                 } else if res.outcome == "err" {
@@ -1037,7 +1090,7 @@ impl HistExec {
                         *self.stats.relation_checks.entry("visibility".into()).or_insert(0) += 1;
                         if two.verdict != "ok" {
                             self.violations.push(Viol::new("cross_file_invisible", 0, format!(
-                                    "{label}: project rejected ({}) although the class is defined in the other file and the same use is accepted when the class is local",
+                                    "{label}: project rejected ({}) although the definition is in the other file and the same use is accepted when the definition is local",
                                     two.diags.first().map(|d| d.lines().next().unwrap_or("").to_string()).unwrap_or_default()
                                 )));
                         }
@@ -1053,6 +1106,22 @@ impl HistExec {
             }
         }
     }
+}
+
+/// resolve `.`, `..` and repeated / trailing slashes lexically
+pub fn lexical_norm(p: &str) -> String {
+    let mut parts: Vec<&str> = vec![];
+    for c in p.split('/') {
+        match c {
+            "" | "." => {}
+            ".." => {
+                parts.pop();
+            }
+            x => parts.push(x),
+        }
+    }
+    let lead = if p.starts_with('/') { "/" } else { "" };
+    format!("{lead}{}", parts.join("/"))
 }
 
 pub fn is_benign(p: &PlanItem) -> bool {
